@@ -452,6 +452,10 @@ func (o *user) writeAndClearCache(writer *auditevent.EventWriter) error {
 	for i := range o.cached {
 		err := writer.Write(o.toAuditEvent(o.cached[i]))
 		if err != nil {
+			// Keep only the events that have not been written yet, so
+			// that a later flush does not write the others again.
+			o.cached = o.cached[i:]
+
 			return err
 		}
 	}
